@@ -1323,3 +1323,71 @@ def _bracketed(log):
                 return False
             stack.pop()
     return not stack
+
+
+# ---------------------------------------------------------------------------------------
+# histories: several computations one after another on the same thread / scheduler (C08)
+
+
+def detach(rt):
+    s = _sched.get_scheduler()
+    try:
+        s.on_before_batch_flush.unsubscribe(rt._before)
+        s.on_after_batch_flush.unsubscribe(rt._after)
+    except Exception:
+        pass
+
+
+def check_history(comps, sig=None):
+    """comps: list of dicts(td=..., props=set, compare=bool, nkinds, prio, hash_order, conv, setup, teardown).
+    Runs them in sequence WITHOUT resetting the scheduler in between and checks C08 hygiene after
+    each, plus the full oracle of every computation flagged compare=True."""
+    rec.clear_fail()
+    reset_globals()
+    ok = True
+    nfl = 0
+    try:
+        for i, c in enumerate(comps):
+            props = set(c.get("props", ())) | {"c08"}
+            rt = RT(nkinds=c.get("nkinds", 2), prio=c.get("prio"), prio_mode=c.get("prio_mode", "tuple"),
+                    hash_order=c.get("hash_order", 0), budget=c.get("budget", 4000),
+                    sv_init=c.get("sv_init", (0, 0)), monitors=props)
+            rt.flush_hook = c.get("flush_hook")
+            if c.get("setup"):
+                c["setup"]()
+            try:
+                real = run_root(rt, c["td"], c.get("conv", 0))
+            finally:
+                if c.get("teardown"):
+                    c["teardown"]()
+                detach(rt)
+            nfl += len(rt.flush_log)
+            if real[0] == "e":
+                rec.wit("computation_failed")
+                if isinstance(real[1], RuntimeError):
+                    rec.wit("runtime_error")
+            if not c.get("compare", True):
+                # only hygiene is asserted for this computation
+                props = {"c08"}
+                s = _sched.get_scheduler()
+                if _sched.get_active_task() is not None:
+                    return rec.fail("computation %d: get_active_task() is not None after the outermost call "
+                                    "ended with %r" % (i, outcome_desc(real)))
+                if len(s._tasks) != 0:
+                    return rec.fail("computation %d: scheduler retains %d tasks after the computation ended "
+                                    "with %r" % (i, len(s._tasks), outcome_desc(real)))
+                for p, text in rt.problems:
+                    if p == "c08":
+                        return rec.fail("computation %d: %s" % (i, text))
+                if real[0] == "e" and not isinstance(real[1], Exception):
+                    return rec.fail("computation %d ended with a non-Exception %r" % (i, real[1]))
+            else:
+                if not judge(rt, c["td"], real, props | {"c01"}, c.get("conv", 0), c.get("sv_init", (0, 0)),
+                             c.get("expect_flushes")):
+                    rec.LAST_FAIL[0] = "computation %d of the history: %s" % (i, rec.LAST_FAIL[0])
+                    return False
+    finally:
+        reset_globals()
+    rec.wit("paths")
+    rec.done(sig, nontrivial=nfl > 0)
+    return ok
